@@ -256,6 +256,10 @@ func (p *Proxy) handleRawMessage(rawMessage *RawMessage) (*Message, error) {
 		if err == nil {
 			transId, err := msg.GetClientTransaction()
 			if err == nil {
+				// register under the resolved address: sendMessage looks the transport up by it
+				if ip, err := p.resolver.GetIp(host); err == nil {
+					host = ip
+				}
 				trans, err := p.clientTransMgr.GetTransport("tcp", host, port, p.localAddress, transId)
 				if err == nil {
 					trans.primary, _ = NewTCPClientTransportWithConn(rawMessage.TcpConn)
@@ -658,7 +662,7 @@ func (p *Proxy) sendMessage(host string, port int, transport string, msg *Messag
 	t, err := p.findClientTransport(ip, port, transport, transId)
 	if err == nil {
 		if msg.IsFinalResponse() {
-			p.clientTransMgr.RemoveTransport(transport, host, port, transId)
+			p.clientTransMgr.RemoveTransport(transport, ip, port, transId)
 		}
 		t.Send(msg)
 	} else {
